@@ -26,6 +26,28 @@ PROPS = {
             'functional ensures clauses with ghost indices (CBMC loop contracts); bounded harnesses vs. reference functions'),
     'C07': ('model_checking', 'Bounded: every relative placement of src and dest in one arena (all offsets, dmax, slen, contents) against an interval-overlap reference; the interval macros as loop-free lemma.',
             'bounded CBMC harness over all placements inside one arena + loop-free contract for the overlap macros'),
+    'C09': ('model_checking', 'Bounded: the pre-scan of each of the 20 delegating entry points against a reference scanner of the directive grammar (libc formatter as assumed contract whose requires clause is "no %n directive"), all formats <= 5 characters over a 9-letter alphabet; the narrow engine with one concrete format per run incl. every %n spelling.',
+            'requires-clause on the assumed libc formatter contract checked at every call site (bounded CBMC); concrete-format runs of the real engine'),
+    'C10': ('model_checking', 'Bounded: 34 query functions on exact-fit operands of <= 5 elements against reference loops (answer, operands unmodified), all contents/sizes/flags.',
+            'bounded CBMC harnesses with reference functions; pointer obligations on exact-fit objects'),
+    'C11': ('model_checking', 'Bounded: the real engine behind sprintf_s/snprintf_s with one concrete format per run (34 formats) and symbolic arguments against a reference renderer of the C11 rules for d i u x X o c s %; float conversions not applicable.',
+            'bounded CBMC runs of the real formatter against a specification renderer written in the harness'),
+    'C12': ('proof', 'Exact census of static-lifetime non-const storage over all 142 translation units (goto symbol tables) + assignment/address-taken scan; frame (assigns) obligations in every contract-enforced job.',
+            'symbol-table census + assigns-clause frame obligations (CBMC contracts)'),
+    'C13': ('proof', 'Loop-free contracts on the six registration/dispatch functions from an arbitrary pre-state of all four cells (induction step over histories), storage-class obligation from the symbol table.',
+            'function contracts (requires/ensures/assigns) enforced by CBMC on the real, #included sources; full domain'),
+    'C14': ('model_checking', 'Bounded call sequences of strtok_s/wcstok_s (strings <= 4..5, delimiter sets changing per call) against the C11 algorithm as index arithmetic.',
+            'bounded CBMC harness over call sequences with a reference tokenizer'),
+    'C15': ('proof', 'Wrapper logic of the six converters against assumed libc contracts (count/characters passed through unaltered, cleared on error, len clamped to dmax); narrow-destination wrappers loop-free full domain, wide-destination ones bounded. Round trips / locale: not applicable.',
+            'assumed contracts on libc converters with requires checked at call sites; wrapper postconditions by CBMC'),
+    'C16': ('proof', 'bsearch_s bounded against linear search; smoothsort leaf functions under contract (cycle rotation for widths incl. > 256, shl/shr/pntz full 128-bit domain). Whole qsort_s not decided.',
+            'function contracts on cycle/shl/shr/pntz enforced by CBMC; bounded harness for bsearch_s'),
+    'C17': ('proof', 'Full 2^32 domain: Hangul composition/decomposition arithmetic incl. rejection above U+10FFFF, round trip lemma, iswfc vs towfc_s count agreement; table conformance to the UCD not applicable.',
+            'loop-free full-domain postconditions on the real lookup code (CBMC)'),
+    'C18': ('proof', 'Value + frame of the erase functions modulo primitive contracts, plus ghost event ordering "a memory barrier follows the last store" (barrier intrinsic given a ghost body); primitives bounded by enumeration. The quantifier over compilers is an assumption.',
+            'ghost-clock postcondition + primitive contracts (CBMC); enumerated bounded checks of mem_prim_set*'),
+    'C19': ('model_checking', 'Bounded n <= 6: result against reference; data independence by self-composition over mechanically inserted branch events (goto-instrument --branch).',
+            'self-composition on branch traces + reference comparison (bounded CBMC)'),
     'C08': ('proof', 'Postcondition "zero is absorbing behind the terminator up to dmax" with arbitrary prior contents, both sides of the 0x20 memset switch reachable (canaries).',
             'ensures clauses with ghost indices under loop contracts; bounded harnesses'),
 }
